@@ -206,6 +206,10 @@ func (w *concWorld) restart(crash bool) {
 // runHist is the body of C01 (attestations) and C02 (proposals): histories of conflict-seeking
 // requests, sequential or in concurrent phases, with clean and crash restarts in between.
 func runHist(t *testing.T, rc *RunCtx, prop string) {
+	if prop == "C01" && rc.Param("mode", "") == "free" {
+		runBatchFree(t, rc, prop)
+		return
+	}
 	ch := rc.Ch
 	nKeys := 1 + ch.Pick(4, 0)
 	maxOps := 26
@@ -222,6 +226,19 @@ func runHist(t *testing.T, rc *RunCtx, prop string) {
 	abandon := concurrent && ch.Pick(3, 0) == 2
 	if abandon {
 		cfg.Action = func(s *Sched, parked []*Park) bool { return w.abandonOne(s) }
+	}
+	// A quarter of the concurrent histories meet transient storage errors (a read or a write fails now and then):
+	// the request that meets one may fail, but nothing it leaves behind may let a later request sign a conflict.
+	if concurrent && ch.Pick(4, 0) == 3 {
+		den := []int{6, 12, 24}[ch.Pick(3, 0)]
+		cfg.Fault = func(s *Sched, p *Park) Resume {
+			if p.Kind == KPoint && ch.Chance(1, den) {
+				rc.Stats.Inc("fault_store-"+p.Label, 1)
+				return Resume{Err: ErrInjected, Fault: "store-" + p.Label}
+			}
+			return Resume{}
+		}
+		rc.Stats.Inc("histories_with_transient_storage_errors", 1)
 	}
 	w = newW1(t, rc, cfg, nil)
 	w.abandon = abandon
